@@ -563,6 +563,10 @@ func (r *Run) connect(s *Step) {
 		ver = mw.V311
 	}
 	c, err := mw.Dial(r.B.Addr, ver, 3*time.Second)
+	for i := 0; err != nil && i < 20; i++ { // transient ephemeral-port exhaustion
+		time.Sleep(50 * time.Millisecond)
+		c, err = mw.Dial(r.B.Addr, ver, 3*time.Second)
+	}
 	if err != nil {
 		r.Fatal = "dial: " + err.Error()
 		return
